@@ -119,6 +119,7 @@ Variables I S : disk -> Prop.
 Variable Extra : list N -> Prop.
 Variable Rs : sstate -> Prop.
 Hypothesis Extra_mono : forall l l', incl l l' -> Extra l -> Extra l'.
+Hypothesis IS_gen : forall d, I d -> S d.
 Definition Gd (s : pstate) : Prop := Iban s /\ Extra (bad s).
 Definition GLd (st : sstate * pstate) : Prop := Gd (snd st) /\ forall q, Rs {| rel := rel (fst st); evq := q |}.
 Notation P := (pres af I S).
@@ -142,16 +143,24 @@ Proof.
   - apply pres_touch. intros d0 _. apply I_arts. exact H.
 Qed.
 
+Lemma G_validate key m : P (fun _ => True) (validateM sha sigok key m).
+Proof.
+  unfold validateM. step; [apply pres_get|].
+  destruct key as [k|]; [|rt]. destruct (arts a (m_num m)) as [[|b]|]; try rt.
+  destruct (m_sig m); [|rt]. destruct (N.eqb (blen b) (m_size m)); [|rt].
+  step; [apply (pres_rd IS_gen)|]. rt.
+Qed.
+
 Definition GI (r : pstate * bool) : Prop := Gd (fst r).
 
 Lemma G_fall_back key s badn : Gd s -> P GI (fall_backM sha sigok key s badn).
 Proof.
   intros [H He]. unfold fall_backM. step; [eapply pres_ignore, G_rm_art|].
-  step; [apply pres_get|].
   assert (Hnb1 : forall n, In n (bad s) -> numeq (if numeq (nb s) badn then None else nb s) n = false).
   { intros n Hn. destruct (H n Hn) as [A _]. destruct (numeq (nb s) badn); auto. }
   destruct (lb s) as [l|] eqn:El.
-  - destruct (negb (N.eqb (m_num l) badn) && validate sha sigok key a0 l) eqn:E.
+  - step. { destruct (negb (N.eqb (m_num l) badn)); [apply G_validate|rt]. }
+    destruct (negb (N.eqb (m_num l) badn) && a0) eqn:E.
     + assert (Hs : Gd {| lb := Some l; nb := match (if numeq (nb s) badn then None else nb s) with None => Some l | Some x => Some x end; cb := cb s; bad := bad s |}).
       { split; [|exact He]. intros n Hn. cbn in *. destruct (H n Hn) as (A & B & C). rewrite El in B.
         specialize (Hnb1 n Hn). destruct (if numeq (nb s) badn then None else nb s); cbn in *; auto. }
@@ -168,7 +177,7 @@ Qed.
 Lemma G_next_boot key s : Gd s -> P (fun r => Gd (fst r)) (next_bootM sha sigok key s).
 Proof.
   intros H. unfold next_bootM. destruct (nb s) as [m|]; [|apply pres_ret; exact H].
-  step; [apply pres_get|]. destruct (validate sha sigok key a m); [apply pres_ret; exact H|].
+  step; [apply G_validate|]. destruct a; [apply pres_ret; exact H|].
   step; [apply G_fall_back; exact H|]. apply pres_ret. exact H1.
 Qed.
 
@@ -181,14 +190,14 @@ Proof.
   set (s0 := {| lb := lb s; nb := nb s; cb := None; bad := add_bad n (bad s) |}).
   assert (He0 : Extra (bad s0)) by (apply (Extra_mono (bad s)); [apply incl_add_bad|exact He]).
   unfold fall_backM. step; [eapply pres_ignore, G_rm_art|].
-  step; [apply pres_get|].
   assert (Hk : forall k, In k (bad s0) -> k = n \/ In k (bad s)) by (intros k Hk; apply add_bad_In in Hk; exact Hk).
   assert (Hnb1 : forall k, In k (bad s0) -> numeq (if numeq (nb s0) n then None else nb s0) k = false).
   { intros k Hk0. destruct (Hk k Hk0) as [->|Hin].
     - cbn. destruct (numeq (nb s) n) eqn:E; auto.
     - destruct (H k Hin) as [A _]. cbn. destruct (numeq (nb s) n); auto. }
   destruct (lb s0) as [l|] eqn:El.
-  - destruct (negb (N.eqb (m_num l) n) && validate sha sigok key a0 l) eqn:E.
+  - step. { destruct (negb (N.eqb (m_num l) n)); [apply G_validate|rt]. }
+    destruct (negb (N.eqb (m_num l) n) && a0) eqn:E.
     + assert (Hs : Gd {| lb := Some l; nb := match (if numeq (nb s0) n then None else nb s0) with None => Some l | Some x => Some x end; cb := cb s0; bad := bad s0 |}).
       { split; [|exact He0]. intros k Hk0. cbn [lb nb cb bad] in *. specialize (Hnb1 k Hk0).
         assert (Hl : numeq (Some l) k = false).
@@ -399,8 +408,8 @@ Theorem any_fault_keeps_pji c o :
 Proof.
   assert (Hm : forall l l' : list N, incl l l' -> ExtraA l -> ExtraA l') by (intros; exact Logic.I).
   split.
-  - apply (G_call sha sigok zdec base true PJI PJI ExtraA RsA Hm A_write_pj A_write_sj A_set A_arts A_sweep c (A_load c)).
-  - apply (G_init sha sigok true PJI PJI ExtraA RsA Hm A_write_pj A_write_sj A_set A_arts c (A_load c)).
+  - apply (G_call sha sigok zdec base true PJI PJI ExtraA RsA Hm IS A_write_pj A_write_sj A_set A_arts A_sweep c (A_load c)).
+  - apply (G_init sha sigok true PJI PJI ExtraA RsA Hm IS A_write_pj A_write_sj A_set A_arts c (A_load c)).
 Qed.
 
 End A.
@@ -496,8 +505,8 @@ Proof.
   assert (Hm : forall l l' : list N, incl l l' -> ExtraB l -> ExtraB l').
   { intros l l' H1 H2 k Hk. apply H1, H2, Hk. }
   split.
-  - apply (G_call sha sigok zdec base false IB SB ExtraB RsB Hm B_write_pj B_write_sj B_set B_arts B_sweep c B_load).
-  - apply (G_init sha sigok false IB SB ExtraB RsB Hm B_write_pj B_write_sj B_set B_arts c B_load).
+  - apply (G_call sha sigok zdec base false IB SB ExtraB RsB Hm IB_SB B_write_pj B_write_sj B_set B_arts B_sweep c B_load).
+  - apply (G_init sha sigok false IB SB ExtraB RsB Hm IB_SB B_write_pj B_write_sj B_set B_arts c B_load).
 Qed.
 
 End B.
